@@ -16,22 +16,32 @@ import (
 // internalWriteLog is an internal database representation of a write log. The first byte denotes
 // whether a given key has been inserted or removed. In case the key has been removed, the rest of
 // the entry contains the removed key. In case the key has been inserted, the rest of the entry
-// contains the index and version of the corresponding leaf node.
+// contains the index and version of the corresponding leaf node, or, when the leaf is not stored
+// as a node of its own, the key and the value themselves.
 type internalWriteLog [][]byte
 
 const (
-	internalWriteLogKindInsert = 0x01
-	internalWriteLogKindDelete = 0x02
+	internalWriteLogKindInsert       = 0x01
+	internalWriteLogKindDelete       = 0x02
+	internalWriteLogKindInsertInline = 0x03
 )
 
 // makeInternalWriteLog converts the given write log into an internal database representation.
-func makeInternalWriteLog(writeLog writelog.WriteLog, annotations writelog.Annotations) internalWriteLog {
+func makeInternalWriteLog(writeLog writelog.WriteLog, annotations writelog.Annotations, version uint64) internalWriteLog {
 	log := make(internalWriteLog, 0, len(writeLog))
 	for i, entry := range writeLog {
 		if annotations[i].InsertedNode == nil {
 			log = append(log, append([]byte{internalWriteLogKindDelete}, entry.Key...))
 		} else {
-			iptr := annotations[i].InsertedNode.DBInternal.(*dbPtr)
+			iptr, _ := annotations[i].InsertedNode.DBInternal.(*dbPtr)
+			if iptr == nil || iptr.isInvalid() || (iptr.isRoot() && iptr.version != version) {
+				// The leaf is not stored as a node of its own: a leaf embedded in an internal node that
+				// was loaded from the database, or the root node of an earlier version, inserted again
+				// with its unchanged value. There is no node to refer to, so the entry itself is stored.
+				key, _ := node.Key(entry.Key).MarshalBinary()
+				log = append(log, append(append([]byte{internalWriteLogKindInsertInline}, key...), entry.Value...))
+				continue
+			}
 			log = append(log, append([]byte{internalWriteLogKindInsert}, iptr.dbKey()...))
 		}
 	}
@@ -50,7 +60,7 @@ func storeInternalWriteLog(
 	if writeLog == nil || annotations == nil {
 		return nil
 	}
-	intLog := makeInternalWriteLog(writeLog, annotations)
+	intLog := makeInternalWriteLog(writeLog, annotations, endRootVersion)
 
 	key := writeLogKeyFmt.Encode(endRootVersion, &endRootHash, &startRootHash)
 	if err := batch.Set(key, cbor.Marshal(intLog)); err != nil {
@@ -157,6 +167,14 @@ func (d *badgerNodeDB) GetWriteLog(_ context.Context, startRoot, endRoot node.Ro
 			default:
 				return nil, fmt.Errorf("mkvs/pathbadger: failed to fetch node: %w", err)
 			}
+		case internalWriteLogKindInsertInline:
+			// Insertion with the key and the value stored in the entry.
+			var k node.Key
+			size, err := k.SizedUnmarshalBinary(key[1:])
+			if err != nil {
+				return nil, fmt.Errorf("mkvs/pathbadger: internal write log is corrupted: %w", err)
+			}
+			wl = append(wl, writelog.LogEntry{Key: k, Value: append([]byte{}, key[1+size:]...)})
 		default:
 			return nil, fmt.Errorf("mkvs/pathbadger: internal write log is corrupted")
 		}
